@@ -216,9 +216,12 @@ _COUNTER = itertools.count()
 
 
 def driver(name="h_file"):
-    """Path of the built driver (harness/<name>.c against the ASan+UBSan build of vlib.REPO's working tree)."""
+    """Path of the built driver (harness/<name>.c against the ASan+UBSan build of vlib.REPO's working tree).
+    name='h_file_alloc' is the same driver with the library's malloc/calloc/realloc wrapped at link time
+    (commands ALLOC_FAIL / ALLOC_COUNT, see harness/h_file_alloc.c); pass it as run_scripts(..., drv=...)."""
     if name not in _DRV:
-        _DRV[name] = vlib.build_driver(name)
+        extra = ["-Wl,--wrap=malloc", "-Wl,--wrap=calloc", "-Wl,--wrap=realloc"] if name == "h_file_alloc" else []
+        _DRV[name] = vlib.build_driver(name, extra=extra)
     return _DRV[name]
 
 
@@ -892,6 +895,71 @@ def parse_batch_read(out, hold=False):
             "br_open": opened, "batches": batches, "end": end, "fault": out.fault, "held": held}
 
 
+def truncation_scan(data, cuts=None, modes=MODES, verify=True, per_script=200, read=True, **kw):
+    """Open every proper prefix data[:n] (n in `cuts`, default all 0..len-1) in every mode and, when the open
+    succeeds, dump it (read=True).  Many prefixes per driver case; a case that dies is attributed to the prefix
+    it died on and the rest is re-run.  Returns {(n, mode): {'open': 'OK' | (code, NAME), 'rows': file rows or
+    None, 'read_errors': int, 'fault': None | dict}}  (property C18: a prefix must be rejected, never opened as
+    a shorter table, never a crash, unless it is itself a complete Parquet file)."""
+    cuts = list(range(len(data))) if cuts is None else list(cuts)
+    res = {}
+    pending = [cuts[i:i + per_script] for i in range(0, len(cuts), per_script)]
+    rounds = 0
+    while pending and rounds < 20:
+        rounds += 1
+        scripts, tmps = [], []
+        for chunk in pending:
+            t = tmppath(".cut")
+            tmps.append(t)
+            sc = Script().load_image(data)
+            for n in chunk:
+                sc.raw("IMG_RESET", f"IMG_TRUNC {n}", f"IMG_SAVE {t}")
+                for m in modes:
+                    sc.raw(f"ECHO T {n} {m}")
+                    sc.open(m, verify, t)
+                    if read:
+                        sc.meta().dump(1 << 20)
+                    sc.close()
+            sc.raw(f"UNLINK {t}", "ECHO FIN")
+            scripts.append(sc)
+        outs = run_scripts(scripts, case_timeout=300, **kw)
+        nxt = []
+        for chunk, out, t in zip(pending, outs, tmps):
+            cur, last, fin = None, None, False
+            for ln in out.lines:
+                if ln.startswith("T "):
+                    w = ln.split()
+                    last = int(w[1])
+                    cur = {"open": None, "rows": None, "read_errors": 0, "fault": None}
+                    res[(last, w[2])] = cur
+                elif ln == "FIN":
+                    fin = True
+                elif cur is not None:
+                    if ln.startswith("open "):
+                        cur["open"] = "OK" if ln.strip() == "open OK" else parse_err(ln)
+                    elif ln.startswith("meta rows="):
+                        cur["rows"] = int(_kv(ln)["rows"])
+                    elif ln.startswith("chunk_end ") and not ln.endswith("end=OK"):
+                        cur["read_errors"] += 1
+                    elif ln.startswith("cr_open") and "ERR" in ln:
+                        cur["read_errors"] += 1
+            if out.fault is not None or not fin:
+                bad = last if last is not None else chunk[0]
+                for m in modes:
+                    res.setdefault((bad, m), {"open": None, "rows": None, "read_errors": 0, "fault": None})
+                    if res[(bad, m)]["open"] is None or m == modes[-1]:
+                        res[(bad, m)]["fault"] = out.fault or {"summary": "case did not finish"}
+                rest = [n for n in chunk if n > bad]
+                if rest:
+                    nxt.append(rest)
+            try:
+                os.unlink(t)
+            except OSError:
+                pass
+        pending = nxt
+    return res
+
+
 # ----------------------------------------------------------------------------- generators
 
 I32 = [0, 1, -1, 2 ** 31 - 1, -2 ** 31, 127, 128, 255, 256, -128, -129, 65535, 65536, 0x7fffff00]
@@ -1359,7 +1427,129 @@ def _selftest():
     return 1 if fails else 0
 
 
+
+
+# ----------------------------------------------------------------------------- corpus entries (corpus/file/*.json)
+
+def replay_corpus(entry):
+    """Run one corpus entry (dict loaded from corpus/file/<id>.json) against the current tree.
+    Returns (shows, observation): shows = the defect described by the entry is still observable.
+    Entry kinds:
+      write_read  'case' (case_to_json) is written by carquet, read back with 'read' = {mode, verify, batch};
+                  the defect shows when a writer call fails/dies, the table read differs from expected_table, or
+                  (with 'validate': true) tools/pq.py finds error-level violations matching 'clauses'.
+      file_read   'file_hex' (+ 'truth' = [[[defs, reps, [hex values]], ...], ...], 'maxdef') is read by carquet;
+                  shows when levels/values differ or reading fails ('expect': 'error' inverts: shows when the
+                  file is read without error).
+      sink        'case' with a sink plan; shows when close returns OK although the sink failed.
+      batch       'case' written, then read through the batch reader ('read' = {mode, batch_size, projection});
+                  shows when columns of one batch differ in length or the content differs from the table.
+      history     'case' written, then 'ops' run on column (rg, col); shows when the rows delivered differ."""
+    import pq
+    kind = entry["kind"]
+    obs = []
+    if kind in ("write_read", "sink", "batch", "history"):
+        case = case_from_json(entry["case"])
+        p = tmppath()
+        st = write_case(case, p)
+        obs.append("writer: " + ", ".join(st) + (f" FAULT {st.fault['summary']}" if st.fault else ""))
+        if kind == "sink":
+            fin = st.sink.get("final", {})
+            obs.append(f"sink accepted {fin.get('accepted')} bytes, failed={fin.get('failed')}, fclose={st.fclose}")
+            return (st.close_ok() and bool(fin.get("failed"))), "; ".join(obs)
+        if st.fault or not st.close_ok():
+            return True, "; ".join(obs)
+        want = expected_table(case)
+        data = Path(p).read_bytes()
+        shows = not st.all_ok()
+        if kind == "write_read":
+            r = entry.get("read", {})
+            if entry.get("validate"):
+                pf = pq.read_file(data)
+                errs = [v for v in pf.errors() if not entry.get("clauses") or v.clause in entry["clauses"]]
+                obs.append("pq.validate: " + ("; ".join(str(v) for v in errs[:3]) or "no matching violation"))
+                shows = shows or bool(errs)
+                if not entry.get("read"):
+                    return shows, "; ".join(obs)
+            d = dump(data, r.get("mode", "stdio"), r.get("verify", True), r.get("batch", 1 << 20))
+            if d.fault:
+                obs.append("read FAULT " + d.fault["summary"])
+                return True, "; ".join(obs)
+            diff = compare_tables(want, d.table()) if d.opened else f"open failed {d.error}"
+            if diff is None and d.read_errors():
+                diff = f"read errors {d.read_errors()}"
+            obs.append("read back: " + (diff or "equal to the written table"))
+            return shows or diff is not None, "; ".join(obs)
+        if kind == "batch":
+            r = entry.get("read", {})
+            b = batch_read(data, r.get("mode", "stdio"), True, r.get("batch_size", 1024), r.get("projection"))
+            if b["fault"]:
+                return True, "; ".join(obs + ["batch reader FAULT " + b["fault"]["summary"]])
+            lens = [[c.num_values for c in x.columns] for x in b["batches"]]
+            obs.append(f"batches: rows {[x.rows for x in b['batches']]}, values per column {lens}, end {b['end']}")
+            ragged = any(len(set(l)) > 1 for l in lens)
+            cols = {}
+            for x in b["batches"]:
+                for j, c in enumerate(x.columns):
+                    bm = c.bitmap if c.bitmap is not None else [0] * c.num_values
+                    cols.setdefault(j, []).extend(assemble([1 - t for t in bm], c.values, 1))
+            flat = [sum((g[c] for g in want), []) for c in range(len(case.schema.columns))]
+            proj = r.get("projection") or list(range(len(flat)))
+            wrong = [j for j, c in enumerate(proj) if isinstance(c, int) and cols.get(j) != flat[c]]
+            if wrong:
+                obs.append(f"content of projected columns {wrong} differs from the written table")
+            return shows or ragged or bool(wrong), "; ".join(obs)
+        if kind == "history":
+            h = column_history(data, entry.get("mode", "stdio"), True, entry["rg"], entry["col"], [tuple(o) for o in entry["ops"]])
+            rows = []
+            for x in h[:-1]:
+                if isinstance(x, ReadPart):
+                    rows.extend(assemble(x.defs, x.values, 1 if case.schema.columns[entry["col"]].rep == "OPTIONAL" else 0))
+            wantrows = want[entry["rg"]][entry["col"]]
+            obs.append("rows delivered: " + str(["NULL" if v is None else (v.hex() if isinstance(v, bytes) else repr(v)) for v in rows]))
+            obs.append("rows written:   " + str(["NULL" if v is None else v.hex() for v in wantrows]))
+            return shows or rows != wantrows[:len(rows)] or bool(h[-1]["fault"]), "; ".join(obs)
+    if kind == "file_read":
+        data = bytes.fromhex(entry["file_hex"])
+        d = dump(data, entry.get("mode", "buffer"), True, entry.get("batch", 1 << 20), entry.get("maxdef"))
+        if d.fault:
+            return True, "read FAULT " + d.fault["summary"]
+        failed = (not d.opened) or bool(d.read_errors())
+        if entry.get("expect") == "error":
+            obs.append("open %s, read errors %s" % ("OK" if d.opened else d.error, d.read_errors()))
+            if failed:
+                return False, "; ".join(obs + ["rejected as required"])
+            truth = entry.get("truth")
+            same = truth is not None and all(
+                ch.defs == truth[ch.rg][ch.col][0] and ch.reps == truth[ch.rg][ch.col][1] and
+                [v.hex() if isinstance(v, bytes) else repr(v) for v in ch.values] == truth[ch.rg][ch.col][2] for ch in d.chunks)
+            obs.append("accepted; values " + ("equal the stored ones" if same else "DIFFER from the stored ones"))
+            return not same, "; ".join(obs)
+        if failed:
+            return True, "open %s, read errors %s" % ("OK" if d.opened else d.error, d.read_errors())
+        truth = entry["truth"]
+        for ch in d.chunks:
+            t = truth[ch.rg][ch.col]
+            got = [v.hex() if isinstance(v, bytes) else repr(v) for v in ch.values]
+            if ch.defs != t[0] or ch.reps != t[1] or got != t[2]:
+                return True, f"rg {ch.rg} col {ch.col}: defs {ch.defs} reps {ch.reps} values {got}; stored defs {t[0]} reps {t[1]} values {t[2]}"
+        return False, "levels and values equal the stored ones"
+    raise ValueError(kind)
+
+
+def _main_replay(path):
+    e = json.loads(Path(path).read_text())
+    shows, obs = replay_corpus(e)
+    print(f"{e['id']}: {e['title']}")
+    print("  expected:", e.get("expected"))
+    print("  observed:", obs)
+    print("  defect shows on", vlib.REPO, ":", shows)
+    return 1 if shows else 0
+
+
 if __name__ == "__main__":
     if "--selftest" in sys.argv:
         sys.exit(_selftest())
+    if "--replay" in sys.argv:
+        sys.exit(_main_replay(sys.argv[sys.argv.index("--replay") + 1]))
     print(__doc__)
